@@ -4,14 +4,20 @@
 # silent (exit 0).  A VIOLATION here is a false alarm of the machinery (or the change does not
 # preserve the property after all).  Always reverts /repo.
 set -u
+# The repository the change is applied to and the checks run against: /repo, or a scratch copy named
+# by SIMPLC_REPO (e.g. the snapshot of `vp run --with-repo`), so that a long regression need not
+# occupy /repo.  The machinery is the tree this script lives in.
+HERE="$(cd "$(dirname "${BASH_SOURCE[0]}")/.." && pwd)"
+REPO="${SIMPLC_REPO:-/repo}"
+if [ "$REPO" != /repo ]; then export SIMPLC_REPO_WS="$REPO/compiler"; fi
 export SIMPLC_OUT_DIR="${SIMPLC_OUT_DIR:-/tmp/simplc-sensitivity-out}"
 mkdir -p "$SIMPLC_OUT_DIR"
 D="$(cd "$1" && pwd)"; shift
-cd /verif
+cd "$HERE"
 PROPS="${*:-C03 C06 C11 C12 C13 C14 C15}"
-if ! git -C /repo diff --quiet; then echo "run_preserving: /repo has uncommitted changes, refusing" >&2; exit 2; fi
-if ! git -C /repo apply "$D/patch.diff"; then echo "run_preserving: patch does not apply" >&2; exit 2; fi
-trap 'git -C /repo checkout -- . >/dev/null 2>&1; git -C /repo clean -fdq >/dev/null 2>&1' EXIT
+if ! git -C "$REPO" diff --quiet; then echo "run_preserving: $REPO has uncommitted changes, refusing" >&2; exit 2; fi
+if ! git -C "$REPO" apply "$D/patch.diff"; then echo "run_preserving: patch does not apply" >&2; exit 2; fi
+trap 'git -C "$REPO" checkout -- . >/dev/null 2>&1; git -C "$REPO" clean -fdq >/dev/null 2>&1' EXIT
 for p in $PROPS; do
   out=$(./check "$p" quick 2>&1); code=$?
   echo "== $(basename $D) $p exit=$code"
